@@ -932,9 +932,11 @@ class ComposerBinary(ComposerBase):
 
     def compose_ssh_mpint(self, value):
         negative = value < 0
-        length = value.bit_length() // 32
-        if value.bit_length() % 32:
-            length += 1
+        if negative:
+            byte_num = value.bit_length() // 8 + 1
+        else:
+            byte_num = (value.bit_length() + 7) // 8
+        length = (byte_num + 3) // 4
 
         mpint_bytes = self._compose_mpint(value, length, self.byte_order)
 
